@@ -156,12 +156,14 @@ func evalCase(d caseDesc) ev.Result {
 
 	// recorded material from other sessions
 	var replayBody []byte
+	var earlierNonce []byte
 	switch d.Proof.Kind {
 	case "replay-session":
 		m0, err := begin(w, w.dev)
 		if err != nil {
 			return ev.Failf("setup", "earlier session: %v", err)
 		}
+		earlierNonce = m0.Prove.CUPHNonce
 		replayBody = m0.ProveDeviceBody(peer.Token64{})
 		if r := peer.Post(w.owner.Handler, 64, m0.Token, replayBody); !r.OK(65) {
 			return ev.Failf("setup", "earlier session ProveDevice answered %d/%d", r.Status, r.Type)
@@ -184,6 +186,11 @@ func evalCase(d caseDesc) ev.Result {
 	j0 := w.owner.J.Len()
 	devPub := w.dev.Key.Public()
 	sessionNonce := m.Prove.CUPHNonce
+	// freshness: the nonce the owner issues for ProveDevice must differ between two sessions of
+	// the same device, or a recorded token would prove nothing
+	if earlierNonce != nil && bytes.Equal(earlierNonce, sessionNonce) {
+		return ev.Failf("nonce-not-fresh", "%s: the owner issued the same ProveDevice nonce %x in two sessions", tag, sessionNonce)
+	}
 
 	// ---- ProveDevice -------------------------------------------------------
 	var body, origBody []byte
